@@ -1,6 +1,6 @@
 SPECIFICATION Spec
-CONSTANT Lattices <- LatsFile
-CONSTANT StaleResampleFlag = FALSE
+CONSTANT Lattices <- LatsDeviation
+CONSTANT StaleResampleFlag = TRUE
 INVARIANT WeightsSumToOne
 INVARIANT UnitSecondMoment
 INVARIANT TuningAdmissible
